@@ -244,7 +244,9 @@ fn gen_c15(seed: u64, idx: usize, _tier: Tier) -> C15Scenario {
             0 => {}
             1 => script.lfaults.push(LFault { at: LTrigger::AtPoint { name: "cli.lock.acquired".into(), nth: 1 }, action: LAction::Kill }),
             2 => script.lfaults.push(LFault { at: LTrigger::AtPoint { name: "run.group.done".into(), nth: rng.range(1, 2) }, action: LAction::Kill }),
-            3 | 4 => script.lfaults.push(LFault { at: LTrigger::AfterOut { n: rng.range(1, total_outs.max(1)) }, action: LAction::Kill }),
+            3 => script.lfaults.push(LFault { at: LTrigger::AfterOut { n: rng.range(1, total_outs.max(1)) }, action: LAction::Kill }),
+            // killed, and a new listener is up on the same port before the run takes its next step
+            4 => script.lfaults.push(LFault { at: LTrigger::AfterOut { n: rng.range(1, total_outs.max(1)) }, action: LAction::Restart }),
             5 if rng.chance(1, 2) => {
                 // stopped, then killed while it still has unread data queued: the peer sees a reset, not a FIN
                 let a = rng.range(1, total_outs.max(1));
@@ -445,9 +447,13 @@ pub fn execute_run_l(sc: &RunScenario, lcfg: Option<&ListenerCfg>, slot: &mut Op
         Some(c) => Some(start_listener(&mut w, c)?),
         None => None,
     };
-    let trace = drive_run_l(&mut w, "M1", &sc.script, Duration::from_millis(sc.hang_ms), l);
+    let mut script = sc.script.clone();
+    if let Some(c) = lcfg {
+        script.listener_args = c.args();
+    }
+    let trace = drive_run_l(&mut w, "M1", &script, Duration::from_millis(sc.hang_ms), l);
     let lout = match l {
-        Some(id) if trace.listener_exit.is_none() => finish_listener(&mut w, id),
+        Some(id) if trace.listener_exit.is_none() => finish_listener(&mut w, trace.listener_restarted_as.unwrap_or(id)),
         _ => None,
     };
     let probes: BTreeMap<String, u64> = w.ctl.as_mut().map(|c| c.take_probes().into_iter().collect()).unwrap_or_default();
